@@ -92,7 +92,7 @@ func checkC17(c *Ctx, r *Report) {
 		recs := findInstrs(f, callPred("(*"+oaP+".Manager).recordObservationUnlocked"))
 		r1.guard(f, "recordObservationUnlocked", recs, "shouldRecord==true", edgeBool(isCallResult(0, "(*"+oaP+".Manager).shouldRecordObservation"), true), nil)
 	}
-	r1.onlyIn("call recordObservationUnlocked", callPred("(*"+oaP+".Manager).recordObservationUnlocked"), c.FnsOfPkg(oaP), "(*"+oaP+".Manager).maybeRecordObservation")
+	r1.onlyCallers("call recordObservationUnlocked", []string{"(*"+oaP+".Manager).recordObservationUnlocked"}, c.FnsOfPkg(oaP), "(*"+oaP+".Manager).maybeRecordObservation")
 
 	// ---- R2 ---------------------------------------------------------------
 	r2 := r.Rule("C17-R2", "E1", 7, "bookkeeping: entry stored with one add; overwrite/delete removes the previous value; only on open connections; wired to Disconnected")
@@ -202,8 +202,8 @@ func checkC17(c *Ctx, r *Report) {
 		r2.Check(wired && len(nots) == 1, "Start: DisconnectedF = removeConn(c), registered with Notify", f.Pos(), 2, "", "observations are no longer withdrawn when a connection closes", "")
 	}
 	r2.onlyIn("write "+connMap, fieldWritePred(connMap), c.FnsOfPkg(oaP), "(*"+oaP+".Manager).recordObservationUnlocked", rcK, oaP+".newManagerWithListenAddrs")
-	r2.onlyIn("call addExternalAddrsUnlocked", callPred(addK), c.FnsOfPkg(oaP), "(*"+oaP+".Manager).recordObservationUnlocked")
-	r2.onlyIn("call removeExternalAddrsUnlocked", callPred(rmK), c.FnsOfPkg(oaP), "(*"+oaP+".Manager).recordObservationUnlocked", rcK)
+	r2.onlyCallers("call addExternalAddrsUnlocked", []string{addK}, c.FnsOfPkg(oaP), "(*"+oaP+".Manager).recordObservationUnlocked")
+	r2.onlyCallers("call removeExternalAddrsUnlocked", []string{rmK}, c.FnsOfPkg(oaP), "(*"+oaP+".Manager).recordObservationUnlocked", rcK)
 
 	// ---- R3 ---------------------------------------------------------------
 	r3 := r.Rule("C17-R3", "E4", 20, "externalAddrs, connObservedTWAddrs and observer counts only under Manager.mu (writes under the write lock)")
